@@ -16,6 +16,10 @@ import Bluebell.Props.C05
 * `C06_unparse_leaves_input` — the caller's tree is returned untouched (after the repair 581c5ee; before
   it the stripped tree was what the caller was left with).
 * `C06_unparse_total` — the model of the stylesheet is a total function: any tree unparses.
+* `C06_safe_text_verbatim` — for every string free of marker characters, braces, backslashes and line breaks
+  whose first character is neither white space nor an uppercase letter: as the first text of a paragraph it
+  is written exactly as it is (no escape added, nothing changed); with `C03_plain_line_is_its_text` the
+  parser reads it back as that paragraph.
 * `C06_examples` — kernel-evaluated: paragraphs, headings and nums made of keywords and marker
   sequences survive unparse + parse with the same structure and text.
 The general structural statement is decided on the real code by the tree oracle (with the listed
@@ -157,5 +161,129 @@ theorem C06_examples :
         .elem "content" [] [.elem "p" [] [.text "SECTION 2 - not a heading ", .elem "b" [] [.text "*bold*"], .text " //x// BODY"],
                             .elem "p" [] [.text "TABLE"]]]) = true := by
   decide +kernel
+
+/-! ## Text without marker characters is written verbatim -/
+
+/-- characters the unparser never touches: not a marker character, brace, backslash or line break -/
+def safeChar (c : Char) : Bool := !(c == '\\' || c == '*' || c == '/' || c == '_' || c == '{' || c == '}' || c == '\n' || c == '\r')
+
+theorem replaceAllAux_absent (value repl : List Char) (v : Char) (vs : List Char) (hv : value = v :: vs) :
+    ∀ l : List Char, v ∉ l → replaceAllAux value repl 0 l = l := by
+  intro l
+  induction l with
+  | nil => intro _; simp [replaceAllAux]
+  | cons c cs ih =>
+    intro h
+    have hc : c ≠ v := fun e => h (by simp [e])
+    have hcs : v ∉ cs := fun e => h (by simp [e])
+    rw [replaceAllAux]
+    have : ¬ (value ≠ [] ∧ value.isPrefixOf (c :: cs) = true) := by
+      subst hv
+      simp [List.isPrefixOf]
+      intro e; exact absurd e.symm hc
+    simp only [this, if_false, ih hcs]
+
+theorem escapeInlines_safe (s : String) (h : ∀ c ∈ s.toList, safeChar c = true) : escapeInlines s = s := by
+  have hno : ∀ v : Char, (v = '\\' ∨ v = '*' ∨ v = '/' ∨ v = '_' ∨ v = '{' ∨ v = '}' ∨ v = '\n' ∨ v = '\r') → v ∉ s.toList := by
+    intro v hv hm
+    have := h v hm
+    rcases hv with rfl | rfl | rfl | rfl | rfl | rfl | rfl | rfl <;> simp [safeChar] at this
+  have hmap : (s.toList.map fun c => if c == '\r' || c == '\n' then ' ' else c) = s.toList := by
+    have key : ∀ l : List Char, (∀ c ∈ l, c ≠ '\r' ∧ c ≠ '\n') → (l.map fun c => if c == '\r' || c == '\n' then ' ' else c) = l := by
+      intro l
+      induction l with
+      | nil => intro _; rfl
+      | cons a as ih =>
+        intro hl
+        have ha := hl a (by simp)
+        have iha := ih (fun c hc => hl c (by simp [hc]))
+        rw [List.map_cons, iha]
+        simp [ha.1, ha.2]
+    apply key
+    intro c hc
+    refine ⟨?_, ?_⟩
+    · exact fun e => hno _ (by simp [e]) (e ▸ hc)
+    · exact fun e => hno _ (by simp [e]) (e ▸ hc)
+  unfold escapeInlines
+  simp only [hmap, String.ofList_toList]
+  have step : ∀ (value repl : String) (v : Char) (vs : List Char), value.toList = v :: vs → v ∉ s.toList →
+      replaceAll s value repl = s := by
+    intro value repl v vs hv hn
+    unfold replaceAll
+    rw [replaceAllAux_absent _ _ v vs hv _ hn, String.ofList_toList]
+  rw [step "\\" "\\\\" '\\' [] rfl (hno _ (by simp))]
+  rw [step "**" "\\*\\*" '*' ['*'] rfl (hno _ (by simp))]
+  rw [step "//" "\\/\\/" '/' ['/'] rfl (hno _ (by simp))]
+  rw [step "__" "\\_\\_" '_' ['_'] rfl (hno _ (by simp))]
+  rw [step "{{" "\\{\\{" '{' ['{'] rfl (hno _ (by simp))]
+  rw [step "}}" "\\}\\}" '}' ['}'] rfl (hno _ (by simp))]
+
+theorem escape_lists_uppercase :
+    (xslEscapeEquals ++ xslEscapeStarts).all (fun k => match k.toList.head? with | some c => decide ('A' ≤ c ∧ c ≤ 'Z') | none => false) = true := by
+  decide +kernel
+
+theorem escapePrefixes_lower (s : String) (f : Char) (r : List Char) (hs : s.toList = f :: r) (hf : ¬ ('A' ≤ f ∧ f ≤ 'Z')) :
+    escapePrefixes s = s := by
+  have hall := escape_lists_uppercase
+  rw [List.all_eq_true] at hall
+  unfold escapePrefixes
+  have h1 : xslEscapeEquals.contains s = false := by
+    cases hc : xslEscapeEquals.contains s with
+    | false => rfl
+    | true =>
+      have hm : s ∈ xslEscapeEquals := by simpa using hc
+      have := hall s (List.mem_append_left _ hm)
+      rw [hs] at this
+      simp at this
+      exact absurd this hf
+  have h2 : xslEscapeStarts.any (fun k => k.toList.isPrefixOf s.toList) = false := by
+    cases hc : xslEscapeStarts.any (fun k => k.toList.isPrefixOf s.toList) with
+    | false => rfl
+    | true =>
+      obtain ⟨k, hk, hp⟩ := List.any_eq_true.mp hc
+      have hu := hall k (List.mem_append_right _ hk)
+      rw [hs] at hp
+      cases hkl : k.toList with
+      | nil => rw [hkl] at hu; simp at hu
+      | cons a as =>
+        rw [hkl] at hu hp
+        simp [List.isPrefixOf] at hp
+        simp at hu
+        rw [hp.1] at hu
+        exact absurd hu hf
+  rw [h1, h2]; simp
+
+theorem safe_ne (c : Char) (h : safeChar c = true) : c ≠ '*' ∧ c ≠ '/' ∧ c ≠ '_' := by
+  refine ⟨?_, ?_, ?_⟩ <;> (intro e; subst e; simp [safeChar] at h)
+
+/-- **Text without marker characters is written verbatim**: the first text of a paragraph whose characters
+are all safe and whose first character is neither white space nor an uppercase letter comes out of the
+unparser exactly as it is — no escape is added, nothing is changed. -/
+theorem C06_safe_text_verbatim (fuel : Nat) (ctx : UCtx) (s : String) (f : Char) (r : List Char) (hsl : s.toList = f :: r)
+    (hs : ∀ c ∈ s.toList, safeChar c = true) (hws : isXmlWs f = false) (hup : ¬ ('A' ≤ f ∧ f ≤ 'Z'))
+    (hp : ctx.parent = "p") (hb : noElems ctx.before = true) :
+    unNode (fuel + 1) ctx (.text s) = s := by
+  have hlt : ltrim s = s := by
+    unfold ltrim
+    rw [hsl]
+    simp [List.dropWhile, hws, ← hsl]
+  have hfs : safeChar f = true := hs f (by rw [hsl]; simp)
+  have hlast : ∀ l, s.toList.getLast? = some l → safeChar l = true := fun l hl => hs l (List.mem_of_getLast? hl)
+  have hse : escapeStartEnd ctx s = s := by
+    unfold escapeStartEnd
+    have h1 : (s.toList.head? == some '*') = false ∧ (s.toList.head? == some '/') = false ∧ (s.toList.head? == some '_') = false := by
+      have := safe_ne f hfs
+      rw [hsl]; simp [this.1, this.2.1, this.2.2]
+    have h2 : (s.toList.getLast? == some '*') = false ∧ (s.toList.getLast? == some '/') = false ∧ (s.toList.getLast? == some '_') = false := by
+      cases hl : s.toList.getLast? with
+      | none => simp
+      | some l =>
+        have := safe_ne l (hlast l hl)
+        simp [this.1, this.2.1, this.2.2]
+    simp [h1.1, h1.2.1, h1.2.2, h2.1, h2.2.1, h2.2.2, escapeInlines_safe s hs]
+  have hnr : ¬ (ctx.parent == "remark" && firstElemTag ctx.before == some "br") = true := by simp [hp]
+  simp only [unNode]
+  rw [if_neg hnr]
+  simp [hp, hb, hlt, hse, escapePrefixes_lower s f r hsl hup]
 
 end Bluebell
